@@ -1,4 +1,4 @@
-import Dashu.Proofs.Ratio.Pick
+import Dashu.Proofs.Ratio.FloatFinal
 import Dashu.Gen.Misc
 import Mathlib.Order.Compare
 /-
@@ -140,27 +140,61 @@ theorem pick_simplest_optimal (lo hi : Q) (hlo : Reduced lo) (hhi : Reduced hi) 
       SimplestOfSet lo hi inclLo inclHi r :=
   pickSimplest_spec lo hi hlo hhi hpos hlt inclLo inclHi
 
-/-- **`simplest_from_f32` / `simplest_from_f64`**, PARTIAL: NaN/inf ⇒ `None`, ±0 ⇒ 0; otherwise
-    the sign of the float times the simplest element of `roundingInterval` (the half-ulp interval,
-    a quarter ulp below a power of two; end points allowed iff the mantissa is even).
-    Partial because "x rounds to the float ⇔ x lies in `roundingInterval`" is not a Lean theorem
-    here (it is C06's `encode` contract); the driver checks it on every case with an independent
-    rounding function.  The model is the REQUIRED behaviour; the code deviates for
-    `decode()` exponents > 0 (finding). -/
-theorem simplest_from_float_partial (eb mb bits : Nat) :
+/-- **the rounding interval is the exact preimage** (any IEEE binary format `F`): a rational
+    `num/den` rounds — to nearest, ties to even, builder-conv's specification `ieeeRoundRat` — to
+    the finite non-zero float with sign `s` and canonical magnitude `m·2^exp` iff it is non-zero,
+    has that sign, and its magnitude lies in the float's rounding set: half an ulp to each side
+    (a quarter below a power of two above the lowest binade), boundaries included iff `m` is even. -/
+theorem rounding_set_is_preimage (F : Conv.Ieee) (hF : F.Ok) (s : Bool) (m : Nat) (exp : Int)
+    (hc : Canon F m exp) (hfin : exp + F.MB ≤ F.emax) (num : Int) (den : Nat) (hden : 0 < den) :
+    (Conv.ieeeRoundRat F .halfEven num den).1 = (if s then F.signBit else 0) + magBits F m exp ↔
+      (num ≠ 0 ∧ (num < 0 ↔ s = true) ∧ InSet F m exp ((num.natAbs : Rat) / den)) :=
+  round_iff F hF s m exp hc hfin num den hden
+
+/-- that set is the `roundingInterval` the model (and, since 3d8de53, the code) hands to
+    `simplest_in`: `(4·man − below, 4·man + 2)·2^(exp−2)` with the parity rule -/
+theorem rounding_set_is_interval (F : Conv.Ieee) (m : Nat) (exp : Int) (x : Rat) :
+    InSet F m exp x ↔
+      ((roundingInterval F.MB F.qmin m exp).1.val ≤ x ∧
+       x ≤ (roundingInterval F.MB F.qmin m exp).2.val ∧
+       (x = (roundingInterval F.MB F.qmin m exp).1.val → m % 2 = 0) ∧
+       (x = (roundingInterval F.MB F.qmin m exp).2.val → m % 2 = 0)) :=
+  inSet_iff_interval F m exp x
+
+/-- NaN / infinities give `None`, the zeros give 0 -/
+theorem simplest_from_float_special (eb mb bits : Nat) :
     (floatDecode eb mb bits = none →
       simplestFromFloat simplerSpec eb mb bits = .ok (some none)) ∧
-    (∀ man exp, floatDecode eb mb bits = some (man, exp) →
-      (man = 0 → simplestFromFloat simplerSpec eb mb bits = .ok (some (some Q.zero))) ∧
-      (man ≠ 0 → ∃ lo hi s,
-        reduce (roundingInterval mb (1 - (2 ^ (eb - 1) - 1) - mb) man.natAbs exp).1 = .ok lo ∧
-        reduce (roundingInterval mb (1 - (2 ^ (eb - 1) - 1) - mb) man.natAbs exp).2 = .ok hi ∧
-        lo.val = (roundingInterval mb (1 - (2 ^ (eb - 1) - 1) - mb) man.natAbs exp).1.val ∧
-        hi.val = (roundingInterval mb (1 - (2 ^ (eb - 1) - 1) - mb) man.natAbs exp).2.val ∧
-        simplestFromFloat simplerSpec eb mb bits =
-          .ok (some (some (mulSign s (decide (man < 0))))) ∧
-        SimplestOfSet lo hi (decide (man.natAbs % 2 = 0)) (decide (man.natAbs % 2 = 0)) s)) :=
-  simplestFromFloat_spec eb mb bits
+    (∀ exp, floatDecode eb mb bits = some (0, exp) →
+      simplestFromFloat simplerSpec eb mb bits = .ok (some (some Q.zero))) :=
+  ⟨(simplestFromFloat_spec eb mb bits).1,
+   fun exp h => ((simplestFromFloat_spec eb mb bits).2 0 exp h).1 rfl⟩
+
+/-- **`simplest_from_f32`, full statement**: for every finite non-zero `f32` (bit pattern) the
+    result is a reduced fraction that converts back to exactly that float under
+    round-to-nearest-even, and every fraction that converts back to it has a denominator that is
+    not smaller and, for an equal denominator, a numerator magnitude that is not smaller:
+    the simplest fraction among those that convert back to exactly the given float. -/
+theorem simplest_from_f32_exact (bits : Nat) (hbits : bits < 2 ^ 32) (man exp : Int)
+    (hdec : floatDecode 8 23 bits = some (man, exp)) (hman : man ≠ 0) :
+    ∃ r, simplestFromFloat simplerSpec 8 23 bits = .ok (some (some r)) ∧ Reduced r ∧
+      (Conv.ieeeRoundRat Conv.Ieee.binary32 .halfEven r.num r.den).1 = bits ∧
+      ∀ (p : Int) (s : Nat), 0 < s →
+        (Conv.ieeeRoundRat Conv.Ieee.binary32 .halfEven p s).1 = bits → AsSimple r ⟨p, s⟩ :=
+  simplestFromFloat_exact Conv.Ieee.binary32 Conv.Ieee.binary32_ok bits hbits man exp hdec hman
+
+/-- **`simplest_from_f64`, full statement** -/
+theorem simplest_from_f64_exact (bits : Nat) (hbits : bits < 2 ^ 64) (man exp : Int)
+    (hdec : floatDecode 11 52 bits = some (man, exp)) (hman : man ≠ 0) :
+    ∃ r, simplestFromFloat simplerSpec 11 52 bits = .ok (some (some r)) ∧ Reduced r ∧
+      (Conv.ieeeRoundRat Conv.Ieee.binary64 .halfEven r.num r.den).1 = bits ∧
+      ∀ (p : Int) (s : Nat), 0 < s →
+        (Conv.ieeeRoundRat Conv.Ieee.binary64 .halfEven p s).1 = bits → AsSimple r ⟨p, s⟩ :=
+  simplestFromFloat_exact Conv.Ieee.binary64 Conv.Ieee.binary64_ok bits hbits man exp hdec hman
+
+-- a finite non-zero f32 meets the hypotheses (0.1f32), and 0.1 itself rounds back to it
+example : floatDecode 8 23 0x3dcccccd = some (13421773, -27) ∧
+    (Conv.ieeeRoundRat Conv.Ieee.binary32 .halfEven 1 10).1 = 0x3dcccccd := by decide
 
 -- 0x3dcccccd = 0.1f32 ↦ 1/10;  NaN ↦ None;  2^100 ↦ 2^100 − 2^75 (tie to the even mantissa)
 example : simplestFromFloat simplerSpec 8 23 0x3dcccccd = .ok (some (some ⟨1, 10⟩)) := by decide
